@@ -73,7 +73,8 @@ def shapes(ref, other):
     return [("plain", r), ("gen1", ("gen1", "List", r)), ("optional", ("gen1", "Optional", r)),
             ("gen2", ("gen2", "Dict", ("ref", ("", "str")), r)), ("union_none", ("union", r, ("none",))),
             ("union", ("union", ("ref", other), r)), ("nested", ("gen1", "List", ("gen2", "Dict", r, ("union", r, ("ref", other))))),
-            ("lower_generic", ("gen1", "list", r)), ("string", ("str",)), ("none", ("none",))]
+            ("lower_generic", ("gen1", "list", r)), ("string", ("str",)), ("none", ("none",)),
+            ("generic_in_union", ("union", ("gen1", "List", r), ("none",))), ("generic_left_of_union", ("union", ("gen1", "List", ("ref", other)), r)), ("generic2_in_union", ("union", ("ref", other), ("gen2", "Dict", ("ref", ("", "str")), r)))]
 
 
 def annotation_matrix():
@@ -128,7 +129,19 @@ def rand_class(rng, allow_qualified=True):
         if k < 0.7:
             return ("gen2", rng.choice(TYPING2), rty(depth + 1), rty(depth + 1))
         if k < 0.85:
-            return ("union", rty(depth + 1), rty(depth + 1))
+            # operands in source order; at most one generic, and a generic in front only in a two-operand union
+            ops = [rng.choice([("ref", rref()), ("ref", rref()), ("none",)]) for _ in range(rng.randint(2, 3))]
+            if rng.random() < 0.4:
+                g = ("gen1", rng.choice(TYPING1), rty(depth + 1)) if rng.random() < 0.6 else ("gen2", rng.choice(TYPING2), rty(depth + 1), rty(depth + 1))
+                i = rng.randrange(len(ops))
+                if i == 0:
+                    ops = [g, ops[1]]
+                else:
+                    ops[i] = g
+            t = ops[0]
+            for x in ops[1:]:
+                t = ("union", t, x)
+            return t
         return rng.choice([("none",), ("str",)])
 
     def rmention():
@@ -255,6 +268,55 @@ def variants(rng, file, cls):
         else:
             c["members"].append(("method", dict(name="fresh_method", decos=[], params=[], ret=None, body=[(("inst", ref), pos)])))
     out.append(("add_coupled:" + how, f, c, ("plus", "Fresh1")))
+    return out
+
+
+def refs_under_union_generic(cls):
+    """names of the references that occur (also) inside a generic that is an operand of a union"""
+    out = set()
+
+    def walk(t, in_union):
+        if t is None:
+            return
+        k = t[0]
+        if k == "union":
+            if t[1][0] in ("gen1", "gen2") or t[2][0] in ("gen1", "gen2"):
+                out.update(cg.cref_src(r) for r in cg.ty_refs(t))
+            walk(t[1], True)
+            walk(t[2], True)
+        elif k in ("gen1", "gen2"):
+            if in_union:
+                out.update(cg.cref_src(r) for r in cg.ty_refs(t))
+            else:
+                for x in t[2:]:
+                    walk(x, False)
+
+    for m in cls["members"]:
+        if m[0] == "attr":
+            walk(m[2], False)
+        elif m[0] == "method":
+            for t in m[1]["params"] + [m[1]["ret"]]:
+                walk(t, False)
+    return out
+
+
+CORE_BUILTIN_TYPES = ["int", "str", "float", "bool", "bytes", "list", "dict", "set", "tuple", "frozenset", "object", "type",
+                      "Exception", "ValueError", "TypeError", "KeyError"]
+
+
+def builtin_core_cases():
+    """Python's core built-in types named as base / annotation: CBO 0 whatever table cbo.go carries (spec side is
+    Python's own builtins module here, not the regenerated table)"""
+    import builtins
+    out = []
+    for b in CORE_BUILTIN_TYPES:
+        assert hasattr(builtins, b)
+        members = [("attr", "field", ("ref", ("", b))),
+                   ("method", dict(name="run", decos=[], params=[("gen1", "List", ("ref", ("", b)))], ret=("union", ("ref", ("", b)), ("none",)),
+                                   body=[(("inst", ("", b)), "PAssignValue")]))]
+        bases = [("", b)] if b in ("object", "Exception", "ValueError", "dict", "list") else []
+        out.append(mk_case(dict(imports=[], classes=[]), dict(name="K", bases=bases, members=members), "builtin-core",
+                           {"position": "base+annotation+call", "form": "builtin_type", "builtin": b}))
     return out
 
 
@@ -408,7 +470,7 @@ def main(tier):
     except Exception as e:
         ck.broken_ties.append("position table check failed: %s" % str(e)[-600:])
 
-    cases = position_matrix() + annotation_matrix() + threshold_cases()
+    cases = position_matrix() + annotation_matrix() + threshold_cases() + builtin_core_cases()
     # built-ins included: tie only
     for c in annotation_matrix()[::7] + position_matrix()[7::23]:
         c = dict(c, inc=True)
@@ -469,6 +531,10 @@ def main(tier):
             n_viol += 1
             ck.violation("risk level %s for CBO %d does not follow the thresholds low=%d medium=%d" % (ic["risk"], ic["cbo"], lo, me), replay)
             continue
+        if c["kind"] == "builtin-core" and ic["deps"]:
+            n_viol += 1
+            ck.violation("Python built-in %s is counted as a coupled class: %s" % (c["tags"]["builtin"], ic["deps"]), replay)
+            continue
         if model is None:
             continue
         mcount, mdeps, mrisk, sdeps = model[idx]
@@ -479,12 +545,18 @@ def main(tier):
         if not c["inc"] and ic["deps"] != sdeps:
             missing = sorted(set(sdeps) - set(ic["deps"]))
             extra = sorted(set(ic["deps"]) - set(sdeps))
-            tags = dict(c["tags"], **{"class": "qualified-reference" if (missing and not extra and all("." in x for x in missing)) else "other",
-                                      "impl_equals_model": same_as_model})
-            e = ck.match_known(tags)
-            if e:
+            ug = refs_under_union_generic(c["cls"])
+            reasons = set()
+            for x in missing:
+                reasons.add("qualified-reference" if "." in x else "generic-in-union" if x in ug else "other")
+            if extra or not missing:
+                reasons.add("other")
+            entries = [ck.match_known(dict(c["tags"], **{"class": rs, "impl_equals_model": same_as_model})) for rs in sorted(reasons)]
+            tags = dict(c["tags"], **{"class": sorted(reasons), "impl_equals_model": same_as_model})
+            if entries and all(entries):
                 n_known += 1
-                ck.known_finding(e)
+                for e in entries:
+                    ck.known_finding(e)
             else:
                 n_viol += 1
                 if n_viol <= 6:
